@@ -2,21 +2,13 @@ NOTES = ("Contract-based deductive verification of the real code. exit 0 = all o
          "exit 2 = undecided (lost anchor, unsupported construct, tool limit) and is never an alarm. See DESIGN.md.")
 
 NOT_APPLICABLE = {
-    "C04": "not reached yet (reassembly glue contracts under construction)",
-    "C07": "not reached yet",
-    "C08": "not reached yet",
-    "C09": "not reached yet",
-    "C10": "not reached yet",
     "C11": "relational property over HashMap iteration order, thread/process identity and an f64 pipeline; no contract within reach of Verus/Kani expresses it (DESIGN §4 C11)",
     "C12": "statistical statement over >=200 simulated events about an end-to-end numeric chain measured against an independent forward model; not a per-function contract (DESIGN §4 C12)",
-    "C13": "not reached yet",
     "C14": "totality/finiteness over a continuous domain through Nelder-Mead, complex arithmetic and transcendentals; Verus leaves floats uninterpreted, CBMC cannot unroll the minimiser (DESIGN §4 C14)",
     "C15": "partition argument runs through IndexMap, iterator chains with closures and f64 equality; thresholds put any Kani bound below the point where the code does anything (DESIGN §4 C15)",
     "C16": "global optimality of a Newton solve of Kepler's equation over transcendental functions: numerical analysis, not a contract (DESIGN §4 C16)",
     "C17": "bit-for-bit and relative-error claims on f64 loops built from iterator chains; Verus has no float theory and the smallest relevant input is beyond bit-precise CBMC (DESIGN §4 C17)",
-    "C18": "not reached yet",
-    "C19": "not reached yet",
-    "C20": "not reached yet",
+    "C18": "not reached yet (bounded Kani stand-in for DriftTable::at planned; nothing proved)",
 }
 
 _COMMON_NOTE = ("Trusted: Verus/Z3, rustc, Kani/CBMC, vstd specs of core/alloc, the extractor's rewrite rules (reported per run in evidence.coverage.rules_fired), "
@@ -46,6 +38,54 @@ TEXT = {
         "design_ref": "DESIGN.md §4 C05",
         "level_text": "PwbV2Packet::try_from(&[u8]) is proved to accept exactly the slices satisfying pwb_ok for every length and channel count, the channel lists are proved to be the set bits of the masks in ascending order mapped through the readout map, data is the i16 view of the blocks, and waveform_at is proved to return exactly the block of the requested channel.",
         "level_note": _COMMON_NOTE + " Assumed leaves: 80-bit mask assembly (copy_from_slice + from_le_bytes), rev/map/collect of channel indices, chunks_exact sample collection, MAC-table loop, u128::leading_zeros contract.",
+    },
+    "C04": {
+        "technique": "Verus contract over the multiset of chunks on the real reassembly glue + order-independence lemmas; bounded native enumeration of the assumed leaves",
+        "design_ref": "DESIGN.md §4 C04",
+        "level_text": "PwbV2Packet::try_from(Vec<Chunk>) is proved, for every number of chunks, to return DeviceIdMismatch / ChannelIdMismatch exactly when the multiset mixes boards / chips, and otherwise the verdict of the documented ladder (missing-or-duplicated id, missing end flag, early end flag, payload size, decode of the id-ordered concatenation) on an id-sorted arrangement of the same multiset; pure lemmas show that this arrangement, and hence every verdict after the density check including the decoded packet, is unique for the multiset.",
+        "level_note": _COMMON_NOTE + " Assumed leaves (cross-checked by native enumeration of every multiset of <=3 (quick) / <=4 (thorough) chunks in every order, labelled bounded): the five iter().position scans, sort_unstable_by_key (permutation, sorted by id), the payload fold. The position reported by MissingChunk in the non-dense case is proved for the sorted arrangement but its independence of the arrangement is only enumerated. chunks.len() <= 2^32 (machine assumption).",
+    },
+    "C07": {
+        "technique": "complete Kani proofs of the real element parsers + Verus stream lemmas (longest prefix, split invariance) + bounded native cross-check of the combinator wiring",
+        "design_ref": "DESIGN.md §4 C07",
+        "level_text": "Every 4-byte word is proved (Kani, all 2^32 words, real fifo_entry) to be classified and decoded exactly as specified and the scaler block to be tag + 240 bytes consumed atomically; longest-prefix, remainder-untouched and n-piece split invariance are proved as lemmas over those element contracts.",
+        "level_note": _COMMON_NOTE + " That chronobox_fifo computes the specified (entry|block)* prefix from the element parsers is ASSUMED from winnow's documented repeat/separated_foldl1 behaviour (A-WINNOW) and cross-checked natively on every stream of <=3 (quick) / <=4 (thorough) elements with every truncation and cut: bounded, not proved.",
+    },
+    "C08": {
+        "technique": "complete Kani proofs over all ids / MACs / 4-byte names + Verus contracts on id conversions, run-number selectors and wire/pad-column arithmetic; native enumeration of table bijections",
+        "design_ref": "DESIGN.md §4 C08",
+        "level_text": "Name grammar (thorough tier: all 2^32 4-byte strings per parser), board tables (all MACs, all device ids), readout-index map (all u16, injective), run-number selection (every u32: simulation maps like run 5000, runs before the first map give an error) and the index arithmetic to wires (<256) and pads are proved.",
+        "level_note": _COMMON_NOTE + " The contents of the lazy_static HashMaps are opaque tables (A-MAPS): the 256-wire and 18432-pad bijections are enumerated natively at six run numbers, not proved. Bank-name harnesses run in the thorough tier only (minutes each).",
+    },
+    "C09": {
+        "technique": "Verus safety obligations on extracted index/selector functions + complete Kani proofs of the extracted calibration closures",
+        "design_ref": "DESIGN.md §4 C09",
+        "level_text": "Only the integer and Option panic sites of event assembly are decided: both calibration closures (cut out of try_from_banks; all i16 samples and baselines), contiguous_ranges / range_to_len / wire<->pad-column functions, TpcWirePosition::try_new (unreachable!() unreachable, index < 256), TpcPadPosition::new (unwraps), and -- as postconditions of the decoders -- the invariants behind board_id().unwrap() and waveform_at().unwrap().",
+        "level_note": _COMMON_NOTE + " NOT decided: the floating-point pipeline (deconvolution, clustering, fitting, vertexing) and the generic, HashMap-using body of try_from_banks itself; the call sites of the unwraps are not verified, only the callee-side invariants.",
+    },
+    "C10": {
+        "technique": "complete Kani proof of the two extracted calibration closures",
+        "design_ref": "DESIGN.md §4 C10",
+        "level_text": "Only the calibration expression is decided: for every i16 sample and baseline and gains {3.0, -0.5, 1.0} both closures of try_from_banks return (sample - baseline) * gain exactly.",
+        "level_note": _COMMON_NOTE + " NOT decided: slot placement, skip(delay), duplicate/mismatch rejection, the ignored-bank list, timestamp. Gain is sampled (3 values), samples and baselines are exhaustive.",
+    },
+    "C13": {
+        "technique": "Verus contract on the real contiguous_ranges (maximal cyclic runs, seam adjacency) + complete Kani proof of the induction-matrix entry",
+        "design_ref": "DESIGN.md §4 C13",
+        "level_text": "Index layer only: contiguous_ranges is proved to return blocks that cover exactly the occupied wires and in which every two adjacent occupied wires (including 255/0) are adjacent unknowns -- for every occupancy except the full ring, where the obligation fails (recorded known finding); the induction coefficient is proved to depend on the distance only; wire<->pad-column arithmetic is proved.",
+        "level_note": _COMMON_NOTE + " NOT decided: that the numeric kernels (faer Cholesky, ls_deconvolution, matching) depend only on block-ordered inputs (A-NUMERIC-LOCAL), the z-mirror clause, bit-identity of floating-point results.",
+    },
+    "C19": {
+        "technique": "Verus contract on the scan-step statements cut out of both binaries",
+        "design_ref": "DESIGN.md §4 C19",
+        "level_text": "Only the time arithmetic is decided: the four statements of the scan closure (both binaries) are proved to add the 32-bit-wrapped difference to the previous decodable event, 0 for the first and for undecodable events.",
+        "level_note": _COMMON_NOTE + " NOT decided: row count and order, thread-count independence, file sorting and refusal cases, column contents. cumulative < 2^63 assumed.",
+    },
+    "C20": {
+        "technique": "Verus contract on the real chronobox_time + hardware-clock-model lemmas; bounded Kani check of the extracted row-split expression",
+        "design_ref": "DESIGN.md §4 C20",
+        "level_text": "chronobox_time is proved to return a time exactly when both markers are present, consecutive, of alternating top bit and on the right side of the timestamp, and then timestamp + ((counter+1)/2)*2^24; lemmas show that for the hardware model this is the true tick count (edge bit cleared) and that a timestamp on the wrong side of a marker never gets a time.",
+        "level_note": _COMMON_NOTE + " NOT decided: concatenation across banks/events/files, grouping by board, the fail-without-CSV clauses, the counter-0 search. The row split is checked by Kani on chunks of <=3 entries (bounded). The f64 conversion of the tick count is opaque.",
     },
     "C06": {
         "technique": "Verus postcondition accept <=> trg_ok(bytes) + complete Kani proof over [u8;80]",
